@@ -2,7 +2,7 @@
    Only statements here; proofs are in FaultProofs.v, ContainProofs.v, Invariant.v. *)
 From Coq Require Import List ZArith NArith Bool Permutation.
 From Scalibr Require Import Walk.Model Walk.Spec Walk.Sched Walk.Trace Walk.C01Proofs Walk.Invariant Walk.Faults
-  Walk.FaultProofs Walk.ContainProofs Walk.PathsProofs Walk.MultiFaultProofs Walk.Witness Walk.Cases.
+  Walk.FaultProofs Walk.ContainProofs Walk.PathsProofs Walk.MultiFaultProofs Walk.Witness Walk.Cases Walk.SizeStatProofs.
 Import ListNotations.
 
 (* ErrorOnFSErrors = false: whatever fails -- any number of faults at any operation site of any tree: root stat,
@@ -115,6 +115,23 @@ Theorem scan_status_derivation : forall c roots r,
   (sr_failed r = false <-> exists inv sts st, run c roots = ROk inv sts st).
 Proof. exact scan_status_lemma. Qed.
 Print Assumptions scan_status_derivation.
+
+(* the lazy fs.Stat of the size check (MaxFileSize > 0): when it fails on a file that some extractor requires, the
+   extractor loop of handleFile hands the file to no extractor (only FileRequired events are added) and aborts
+   the walk iff filesystem errors are fatal; the model carries no error value, so none can be treated as benign *)
+Theorem lazy_stat_fault_fatal_iff_requested : forall c p size ff,
+  ff_stat ff = true -> (0 <? c_max_size c)%Z = true ->
+  forall es st, existsb (fun e => req c e p size ff) es = true ->
+  exists st', run_exts c p size ff es false st = WOk st' (if c_fatal c then Abort AbSize else Continue)
+              /\ only_req_events p st st'.
+Proof. exact lazy_stat_fault_lemma. Qed.
+Print Assumptions lazy_stat_fault_fatal_iff_requested.
+
+Theorem unrequired_file_never_stats : forall c p size ff es st,
+  existsb (fun e => req c e p size ff) es = false ->
+  exists st', run_exts c p size ff es false st = WOk st' Continue /\ only_req_events p st st'.
+Proof. intros c p size ff. exact (lazy_stat_unrequired_lemma c p size ff). Qed.
+Print Assumptions unrequired_file_never_stats.
 
 (* non-vacuity: a tree with an unreadable directory and a file that cannot be opened, inside the domain *)
 Definition t_faulty : node :=
